@@ -652,7 +652,7 @@ func registerAll() {
 
 func TestPropRandom(t *testing.T) {
 	registerAll()
-	ev.Rapid(t, "random", ev.N(4000, 20000), genCase, judged)
+	ev.Rapid(t, "random", ev.N(8000, 20000), genCase, judged)
 }
 
 func TestPropRegressions(t *testing.T) {
